@@ -71,9 +71,9 @@ def generate(rng, tier):
         cases.append(('bus%d' % i, bus_case(rng, i % 4 != 0)))
     for i in range(nb):
         cases.append(('prog%d' % i, prog_case(rng, i % 4 != 0)))
-    rl = sysgen.quick_roms()[:2] if tier == 'quick' else sysgen.roms()[:40]
+    rl = sysgen.quick_roms()[:2] if tier == 'quick' else sysgen.roms()[:24]
     for i, r in enumerate(rl):
-        frames = 40 if tier == 'quick' else 300
+        frames = 40 if tier == 'quick' else 200
         cases.append(('rom%d' % i, ['sys.rom %s 1' % sysgen.enc(r), 'sys.frame %d' % frames, 'sys.serial', 'sys.get']))
     info = dict(input_distribution=dict(bus_histories=nb, programs=nb, roms=len(rl)),
                 samples=[dict(case=cases[nb][0], script=cases[nb][1][:30])])
